@@ -71,7 +71,10 @@ func (its *OrdaService) PatchDocument(goCtx gocontext.Context, req *model.PatchM
 
 		pushPullHandler := newPushPullHandler(ctx, ppp, clientDoc, collectionDoc, its.managers)
 		pppCh := pushPullHandler.Start()
-		_ = <-pppCh
+		if res := <-pppCh; res == nil || res.GetPushPullPackOption().HasErrorBit() {
+			// the patch was computed but its operations were not stored: do not answer success
+			return nil, errors.NewRPCError(errors.ServerInternal.New(ctx.L(), "fail to push the patch operations"))
+		}
 	}
 
 	return &model.PatchMessage{
